@@ -91,8 +91,8 @@ CHECKS = {
     "C13": {
         "level": "exploration",
         "needs_cli": True,
-        "rule": "exhaustive: every violation class (out-of-order starts, overlap, start>end, beyond chromosome, unknown chromosome, chromosome order, non-contiguous chromosome, 8-10 malformed-line shapes, empty input) injected at every position (chromosome first/middle/last x item first/middle/last) of a valid 3x3 input x {bigWig, bigBed} x {iterator, serial text, parallel file} x {single, two-pass} x runtimes; plus valid degenerate inputs (zero-length only, single item, a source yielding no values). Each write runs under catch_unwind and a wall-clock watchdog. Oracle: invalid -> Err value (not Ok, not panic, not hang); valid -> returns without panic or hang. non-trivial = every case (each is a distinct injection)",
-        "require": ["invalid_refused", "valid_returned_ok", "tool_refusal_runs", "tool_valid_ok"],
+        "rule": "exhaustive: every violation class (out-of-order starts, overlap, start>end, beyond chromosome, unknown chromosome, chromosome order, non-contiguous chromosome, 8-10 malformed-line shapes, empty input) injected at every position (chromosome first/middle/last x item first/middle/last) of a valid 3x3 input x {bigWig, bigBed} x {iterator, serial text, parallel file} x {single, two-pass} x runtimes; plus valid degenerate inputs (zero-length only, single item, a source yielding no values). Each write runs under catch_unwind and a wall-clock watchdog. Oracle: invalid -> Err value (not Ok, not panic, not hang); valid -> returns without panic or hang. Tool part: the converter binaries on 13 kinds of unrepresentable / degenerate input x threads x --parallel x --single-pass, and bigwigmerge on inputs whose chromosome sizes disagree (bigWig and bedGraph output): non-zero, non-panic exit (101 / signal = violation), valid inputs succeed. non-trivial = every case (each is a distinct injection)",
+        "require": ["invalid_refused", "valid_returned_ok", "tool_refusal_runs", "tool_valid_ok", "tool_merge_refusal_runs"],
         "assumptions": E1_ASSUME + ["hang verdicts are wall-clock caps (15 s where a case takes < 5 ms)"],
     },
     "C14": {
@@ -112,25 +112,27 @@ CHECKS = {
         "assumptions": E1_ASSUME,
     },
     "C19": {
+        "needs_py": True,
         "level": "exploration",
         "needs_cli": True,
         "mem_gb": 2,
-        "rule": "exhaustive: generated schema for every extra-column count 0..40 (declared fields counted independently, parsed, written and read back); supplied schemas (single table; helper declaration followed by the table) stored verbatim with the table's declared field count, through the library and through the tool with file input and with the BED on standard input (-, stdin, /dev/stdin; with --autosql and with a generated schema); every schema of a grammar-based generator (all field forms x declaration types, 1-3 fields, 1-3 declarations) must parse with the generated counts; every character truncation and every single-token mutation of a schema core; every string up to a length bound over the delimiter alphabet with keyword prefixes/suffixes. Each parse runs under catch_unwind inside a worker with a 2 GB address-space cap and a wall cap (hang / unbounded growth = failure). non-trivial = every block",
-        "require": ["parses", "parses_ok", "parses_err", "schema_roundtrips", "grammar_schemas", "truncations", "token_mutations", "short_strings", "tool_schema_runs", "tool_schema_runs_from_stdin"],
+        "rule": "exhaustive: generated schema for every extra-column count 0..40 (declared fields counted independently, parsed, written and read back); supplied schemas (single table; helper declaration followed by the table) stored verbatim with the table's declared field count, through the library and through the tool with file input and with the BED on standard input (-, stdin, /dev/stdin; with --autosql / -as= and with a generated schema), read back by the independent decoder, by bigbedinfo --autosql and through the Python binding (write(autosql=) then sql(), sql(parse=True), sql() on encoder-written files); every schema of a grammar-based generator (all field forms x declaration types, 1-3 fields, 1-3 declarations) must parse with the generated counts; every character truncation and every single-token mutation of a schema core; every string up to a length bound over the delimiter alphabet with keyword prefixes/suffixes. Each parse runs under catch_unwind inside a worker with a 2 GB address-space cap and a wall cap (hang / unbounded growth = failure). non-trivial = every block",
+        "require": ["parses", "parses_ok", "parses_err", "schema_roundtrips", "grammar_schemas", "truncations", "token_mutations", "short_strings", "tool_schema_runs", "tool_schema_runs_from_stdin", "tool_schema_runs_ucsc_spelling", "tool_schema_info_runs", "python_schema_calls"],
         "assumptions": E1_ASSUME + ["hang / unbounded growth verdicts are a 30 s wall cap and a 2 GB address-space cap per block of parses (a parse normally takes microseconds)"],
     },
     "C15": {
         "level": "exploration",
         "needs_cli": True,
         "rule": "exhaustive: merge_sections_many on every pair of sorted disjoint streams with <=2 intervals whose endpoints come from a set around base 0 and both 50,000-base window boundaries (x value patterns incl. cancelling and explicit zeros), every triple of <=1-interval streams, every <=3-interval stream alone / doubled / negated; merge_into on every overlapping pair over small coordinates; fill and fill_start_to_end on every WL(3) layout x start/end choices; each output compared with the per-base sum (exact: all values dyadic). The merge tool is covered by the tool part (see counters tool_*). non-trivial = every block",
-        "require": ["merge_runs", "merge_runs_with_2+_outputs", "merge_into_calls", "fill_runs", "tool_merge_runs"],
+        "require": ["merge_runs", "merge_runs_with_2+_outputs", "merge_into_calls", "fill_runs", "tool_merge_runs", "tool_merge_runs_input_style_0", "tool_merge_runs_input_style_1", "tool_merge_runs_input_style_2", "tool_merge_runs_input_style_3", "tool_merge_runs_with_more_inputs_than_open_files"],
         "assumptions": E1_ASSUME + ["the >978-input file-descriptor chunking path of the merge tool is outside the bounds"],
     },
     "C17": {
+        "needs_py": True,
         "level": "exploration",
         "needs_cli": True,
-        "rule": "exhaustive: for every WL(k) bigWig file and multi-chromosome core files, every region 0<=s<e<=16 on every chromosome through stats_for_bed_item and through the bigwig_average_over_bed iterator in 5 name modes (names plain, with blanks inside, empty); size, bases, sum, mean0, mean, min, max compared with the per-base array (NaN when nothing covered), one row per input row in order with the requested name; tool part: bigwigaverageoverbed on encoder-written bigWigs x region lists x name modes x --min-max x -t 1..16 (byte-identical for every thread count and equal to the reference at the printed precision) and bigwigvaluesoverbed. non-trivial = >=2 values in the file",
-        "require": ["regions", "iterator_rows", "tool_average_runs", "tool_values_runs"],
+        "rule": "exhaustive: for every WL(k) bigWig file and multi-chromosome core files, every region 0<=s<e<=16 on every chromosome through stats_for_bed_item and through the bigwig_average_over_bed iterator in 5 name modes (names plain, with blanks inside, empty); size, bases, sum, mean0, mean, min, max compared with the per-base array (NaN when nothing covered), one row per input row in order with the requested name; tool part: bigwigaverageoverbed on encoder-written bigWigs x region lists x name modes x --min-max x -t 1..16 (byte-identical for every thread count and equal to the reference at the printed precision) and bigwigvaluesoverbed; Python part: pybigtools average_over_bed of the extension built from /repo, every names mode (absent, True, False, 0, 1, 4, 5) x every stats form (absent, all, one statistic, lists) on the same files and region lists. non-trivial = >=2 values in the file",
+        "require": ["regions", "iterator_rows", "tool_average_runs", "tool_values_runs", "python_average_calls"],
         "assumptions": E1_ASSUME + ["regions on chromosomes absent from the bigWig are outside the property's domain",
                                     "zero-length stored values inside a region are don't-care for the extrema"],
     },
@@ -144,10 +146,11 @@ CHECKS = {
                                     "files that are not well-formed (reader robustness) are outside the statement"],
     },
     "C11": {
+        "needs_cli": True,
         "level": "model_checking",
         "technique": "deviation-bounded exhaustive schedule exploration of the real writer pipeline on a current-thread runtime through cfg-guarded hook points (stateless, CHESS-style iterative bounding), composed with C12's loom exploration of the staging buffer; the same exploration of the multi-threaded text converters (write_bg / write_bed driven on a current-thread runtime by a cfg-guarded switch); plus a labelled sampling sweep over real runtimes",
-        "rule": "layer 1: for each scenario (file type x source x pass x chromosomes/slots/channel/buffering) the real write runs on a current-thread tokio runtime; the hook points at every task start and hand-off ask the explorer whether to proceed or yield; ALL executions with at most `bound` yields are run (depth-first over deviation vectors, each execution deterministic and replayed from scratch); destination bytes must equal the 0-deviation run, no error, no hang; file-source scenarios must also give the iterator source's bytes; layer 1b: the multi-threaded converters write_bg / write_bed on files of 2-4 chromosomes x thread counts (handle-channel capacity) 1/2/6/16 x staging in memory / in a file, incl. a 70 KB line: every execution's text must equal the single-threaded path's text (= the input text); every 50th schedule is run twice and must reproduce. states = distinct hook-trace prefixes, transitions = hook events executed, traces validated = executions (each is an execution of the implementation). layer 3 (supplementary, sampling over OS schedules): thread counts x runtimes x channel sizes x buffering x sources x passes, repeated, bytes identical. The staging buffer's access-granularity interleavings are C12's",
-        "require": ["scenarios", "executions", "scenarios_with_2+_traces", "schedules_replayed_twice", "sweep_runs", "converter_scenarios", "cross_source_comparisons"],
+        "rule": "layer 1: for each scenario (file type x source x pass x chromosomes/slots/channel/buffering) the real write runs on a current-thread tokio runtime; the hook points at every task start and hand-off ask the explorer whether to proceed or yield; ALL executions with at most `bound` yields are run (depth-first over deviation vectors, each execution deterministic and replayed from scratch); destination bytes must equal the 0-deviation run, no error, no hang; file-source scenarios must also give the iterator source's bytes; layer 1b: the multi-threaded converters write_bg / write_bed on files of 2-4 chromosomes x thread counts (handle-channel capacity) 1/2/6/16 x staging in memory / in a file, incl. a 70 KB line: every execution's text must equal the single-threaded path's text (= the input text); every 50th schedule is run twice and must reproduce. states = distinct hook-trace prefixes, transitions = hook events executed, traces validated = executions (each is an execution of the implementation). layer 3 (supplementary, sampling over OS schedules): thread counts x runtimes x channel sizes x buffering x sources x passes, repeated, bytes identical; layer 3b: the same through the built bedgraphtobigwig / bedtobigbed binaries (-t x --parallel x --inmemory x pass mode). The staging buffer's access-granularity interleavings are C12's",
+        "require": ["scenarios", "executions", "scenarios_with_2+_traces", "schedules_replayed_twice", "sweep_runs", "converter_scenarios", "cross_source_comparisons", "cli_sweep_runs"],
         "mc_counters": {"states": "distinct_trace_prefixes", "transitions": "hook_events", "traces": "executions"},
         "assumptions": ["tokio's current-thread scheduler is deterministic given which awaits return Pending",
                         "preemption inside a task between two hook points (only possible on a multi-thread runtime) is not explored by layer 1; layer 3 samples it",
@@ -157,8 +160,8 @@ CHECKS = {
         "level": "exploration",
         "needs_cli": True,
         "technique": "exhaustive enumeration of command-line configurations (thread counts, parallel/pass modes, flag styles, invocation styles) on the built binaries, round trip compared with the input and with the library's range queries; OS thread schedules are sampled (the schedule quantifier is C11/C12's)",
-        "rule": "every configuration of the product threads x parallel x single-pass x inmemory x uncompressed x block-size x zooms x {applet, bigtools <sub>} x {native, UCSC flag spellings and tool names} (quick: systematic 1-in-19 subsample; thorough: full product) on 4 bedGraph and 4 BED inputs: forward conversion must succeed and honour the options (independent decoder), back conversion with -t 1/2/6/16 must return the original records in order (identical text for every thread count), and 7 restricted (chrom,start,end) outputs per file must equal the library's range query and contain every overlapping input record. non-trivial = every configuration",
-        "require": ["process_runs", "restricted_queries"],
+        "rule": "every configuration of the product threads x parallel x single-pass x inmemory x uncompressed x block-size x zooms x {applet, bigtools <sub>} x {native, UCSC flag spellings and tool names} (quick: systematic 1-in-19 subsample; thorough: full product) on 4 bedGraph and 4 BED inputs: forward conversion must succeed and honour the options (independent decoder), back conversion with -t 1/2/6/16 must return the original records in order (identical text for every thread count), 9 restricted (chrom,start,end) outputs per file must equal the library's range query and contain every overlapping input record, and one --overlap-bed / -bed= run over a 5-line regions file must equal the concatenated range queries. non-trivial = every configuration",
+        "require": ["process_runs", "restricted_queries", "overlap_bed_runs", "conversions_from_stdin"],
         "assumptions": E1_ASSUME + ["OS thread schedules of the multi-threaded tools are sampled, not enumerated"],
     },
     "C20": {
